@@ -3,6 +3,7 @@
 import hashlib
 import inspect
 from collections.abc import Callable
+from typing import Any
 
 
 def ensure_tuple(value: str | tuple[str, ...]) -> tuple[str, ...]:
@@ -23,6 +24,21 @@ def ensure_tuple(value: str | tuple[str, ...]) -> tuple[str, ...]:
     if isinstance(value, str):
         return (value,)
     return value
+
+
+def _hash_bound_receiver(h: Any, func: Callable) -> None:
+    """Fold the object a bound method is bound to into the hash.
+
+    ``a.method`` and ``b.method`` share source and bytecode; what tells them
+    apart is ``__self__`` (builtins are bound to their module: skipped).
+    """
+    receiver = getattr(func, "__self__", None)
+    if receiver is None or inspect.ismodule(receiver):
+        return
+    try:
+        h.update(repr(receiver).encode())
+    except Exception:
+        h.update(f"<receiver:{id(receiver)}>".encode())
 
 
 def hash_definition(func: Callable) -> str:
@@ -62,6 +78,7 @@ def hash_definition(func: Callable) -> str:
                     h.update(repr(cell.cell_contents).encode())
                 except ValueError:
                     h.update(b"<empty_cell>")
+        _hash_bound_receiver(h, func)
         return h.hexdigest()
 
     # Bytecode fallback — for exec/eval/Jupyter-defined functions
@@ -87,6 +104,7 @@ def hash_definition(func: Callable) -> str:
                 except ValueError:
                     h.update(b"<empty_cell>")
 
+        _hash_bound_receiver(h, func)
         return h.hexdigest()
 
     # Name-based fallback — for builtins/C extensions/functools.partial
